@@ -4,7 +4,7 @@ Model: coq/Model/Negotiate.v; theorems: coq/Props/C05.v."""
 import re, threading, time
 import xml.etree.ElementTree as ET
 ID = 'C05'
-COQ_ROOTS = ['Props/C05.v', 'GenProps/Caps_consts.v', 'GenProps/Negotiate_consts.v', 'GenProps/Writer_consts.v']
+COQ_ROOTS = ['Props/C05.v', 'GenProps/Caps_consts.v', 'GenProps/Negotiate_consts.v', 'GenProps/Writer_consts.v', 'GenProps/HelloWait_consts.v']
 RULE = ('A case is (profile of the 14, user capabilities, server capability list from a grammar: base 1.0/1.1 present/absent in '
         'either URN form, with parameters/extra segments, look-alikes, padding, duplicates; qualified or unqualified server hello; '
         'session-id; order of "server hello processed" vs "client hello written" forced through the _send_ready oracle: '
@@ -16,10 +16,17 @@ RULE = ('A case is (profile of the 14, user capabilities, server capability list
         '_server_capabilities, connected, select/read/write/close; a case is (scenario, decision list): server script (hello whole / cut at a '
         'position class / two hellos / other message / not XML / garbage / EOF / read error / nothing), readiness gate (always, k polls, after the '
         'dispatch, after the return), write faults, eager deadlines; small scenarios are enumerated depth-first with a pre-emption bound, the '
-        'others run under seeded random schedules. Every effect trace is validated against NegotiateSched.fstep.')
+        'others run under seeded random schedules. Every effect trace is validated against NegotiateSched.fstep. '
+        'Deadline cases (kind deadline): the real manager.connect_ssh / connect / connect_tls / connect_uds against an in-process peer behind the '
+        'real transport (SSH: subsystem granted; TLS: handshake done; Unix: accepted) that stays silent, drips a hello too slowly, or sends it '
+        'inside the timeout; every entry point x every way of stating the timeout (keyword, positional, manager_params only, both, neither, '
+        'timeout=None, ssh_config ConnectTimeout, ssh_config and keyword) x timeout below 1.3 s (judged on the wall clock) or 90-400 s (judged '
+        'on the argument of the hello wait, which is then cut short); the deadline is compared with HelloWait.hello_wait.')
 ASSUMES = ['the transport delivers the server octets in order; threading.Event.wait(timeout) returns no later than the deadline plus scheduling latency',
            'a profile is one of the 14 modules of ncclient/devices; nc_params capabilities are strings']
-TRUSTED = ['modelled, not verified: lxml parsing/serialisation of the hello documents (trees are compared through an independent reader)',
+TRUSTED = ['tools/harness/hello_deadline.py: scripted SSH/TLS/Unix peers; the name Event of ncclient.transport.session is rebound to a recording subclass '
+           'that cuts waits above 2 s short (the deadline is then read off the argument of wait)',
+           'modelled, not verified: lxml parsing/serialisation of the hello documents (trees are compared through an independent reader)',
            'tools/harness/fakesession.py in-memory transport and selector shim',
            'tools/harness/sched.py, neg_sched.py, neg_check.py (scheduler, logging fields, effect log -> label mapping); CPython executes the code '
            'between two instrumented points atomically with respect to the other managed threads']
@@ -449,6 +456,27 @@ def report_connect(ctx, case, obs, probs, mism):
     for what, exp, act in probs:
         ctx.fail(case, what, sig=sig_of(case, obs), expected=exp, actual=act)
 
+def run_deadline(ctx, corpus, rounds):
+    from harness import hello_deadline as HD
+    cases = list(corpus)
+    for _ in range(rounds):
+        cases += HD.gen_cases(ctx.rng, ctx.tier)
+    mouts = ctx.model.batch([HD.model_call(c) for c in cases]) if ctx.model else [None] * len(cases)
+    for (case, obs, probs), mo in zip(HD.check_cases(cases), mouts):
+        req = HD.requested_ms(case)
+        ctx.count(case, nontrivial=True); ctx.traces += 1
+        ctx.hist('deadline_entry_way', case['fun'] + '/' + case['way']); ctx.hist('deadline_script', case['script'])
+        ctx.hist('deadline_judged_on', 'argument of the wait' if any(w['virtual'] for w in obs['waits']) else 'wall clock')
+        ctx.hist('deadline_result', obs['result'])
+        for what, exp, act in probs:
+            ctx.fail(case, what, sig=None, expected=exp, actual=act)
+        if mo is not None and obs['up'] and not obs['hung']:
+            mw, mt = HD.model_out(mo); iw, it = HD.impl_out(case, obs)
+            if iw is not None and iw != mw:
+                ctx.disagree(case, mw, iw, 'HelloWait.hello_wait vs the argument of init_event.wait in _post_connect', theorem='C05_wait_requested/C05_wait_default')
+            if it != 'n/a' and it != mt:
+                ctx.disagree(case, mt, it, 'HelloWait.manager_timeout vs Manager._timeout', theorem='C05_manager_timeout')
+
 PLUMB_FUNS = ('connect_ssh', 'connect_tls', 'connect_uds')
 PLUMB_EXTRA = [[], ['urn:example:params:my-extension:1.0'], ['urn:example:a', 'urn:ietf:params:netconf:capability:interleave:1.0']]
 
@@ -511,13 +539,17 @@ def run(ctx):
                     ctx.fail(case, what, sig=None, expected=exp, actual=act)
     quick = ctx.tier == 'quick'
     # (0) corpus
-    sched_corpus = []
+    sched_corpus, deadline_corpus = [], []
     for p in sorted(glob.glob(os.path.join(paths.CORPUS, 'C05', '*.json'))):
         case = json.load(open(p))['case']
         if case.get('kind') == 'connect':
             obs, probs, mism = run_connect(ctx, case); ctx.count(case); report_connect(ctx, case, obs, probs, mism)
         elif case.get('kind') == 'sched':
             sched_corpus.append(case)
+        elif case.get('kind') == 'deadline':
+            deadline_corpus.append(case)
+    # (0'') the timeout clause through the real entry points and transports: no hello within the timeout => connect fails then
+    run_deadline(ctx, deadline_corpus, rounds=1 if quick else 5)
     # (0') the two-thread exchange under the deterministic scheduler, validated against NegotiateSched.fstep
     from harness import neg_check
     n_sched = neg_check.check(ctx, n_random=1200 if quick else 20000, dfs_bound=2 if quick else 3, dfs_cap=600 if quick else 12000, corpus=sched_corpus)
@@ -600,6 +632,12 @@ def search(ctx, seeds):
     from harness import neg_check
     f = neg_check.search(ctx, seeds)
     if f: return f
+    from harness import hello_deadline as HD
+    dl = [c for c in seeds if c.get('kind') == 'deadline'] + HD.gen_cases(rng, 'quick')
+    for case, obs, probs in HD.check_cases(dl):
+        if probs:
+            what, exp, act = probs[0]
+            return dict(case=case, what=what, sig=None, expected=exp, actual=act)
     tries = [c for c in seeds if c.get('kind') == 'connect']
     for name in PROFILES:
         tries.append(dict(kind='connect', profile=name, extra=[], server_caps=[B10, B11], sid=1, order='server_first_blocked'))
@@ -628,6 +666,9 @@ def reproduce(finding):
         finally:
             neg_sched.uninstall()
         return neg_check.oracle(sc) is not None
+    if case.get('kind') == 'deadline':
+        from harness import hello_deadline as HD
+        return bool(HD.check_cases([case])[0][2])
     obs = run_impl(case)
     return bool(oracle(case, obs)) and sig_of(case, obs) == finding.get('sig')
 
@@ -636,6 +677,24 @@ def replay(doc):
     if case.get('kind') == 'sched':
         from harness import neg_check
         return neg_check.replay(doc)
+    if case.get('kind') == 'deadline':
+        from harness import hello_deadline as HD
+        from vlib.model import Model
+        case, obs, probs = HD.check_cases([case])[0]
+        req = HD.requested_ms(case)
+        print('case     :', case)
+        print('call     : manager.%s, timeout stated by the caller: %s; the peer brings the connection up and then: %s'
+              % (case['fun'], 'none' if req is None else '%g s (%s)' % (req / 1000.0, case['way']), case['script']))
+        print('observed : result=%s %r; %.2fs after the connection was up; hello wait(s): %s'
+              % (obs['result'], obs.get('message'), obs['after_up'] or -1, obs['waits']))
+        try:
+            print('model    : hello_wait, manager timeout (ms) =', HD.model_out(Model('C05').call(HD.model_call(case))))
+        except Exception as e:
+            print('model    : not available (%s)' % type(e).__name__)
+        for what, exp, act in probs:
+            print('FAILS    :', what); print('expected :', exp); print('actual   :', act)
+        if not probs: print('holds')
+        return not probs
     if case.get('kind') == 'plumbing':
         obs = plumbing_case(case); probs = plumbing_oracle(case, obs)
         print('case     :', case); print('observed :', obs); print('problems :', [p[0] for p in probs] or 'none')
